@@ -370,6 +370,9 @@ func newStack(e *env, sc *scen, beKind, shape string) *rstack {
 
 func (s *rstack) buildLayers(shape string) {
 	s.ly, s.daos = nil, nil
+	if shape == "" {
+		return // every layer was a flushed private one: the bare database is left
+	}
 	if shape[0] == 'r' {
 		d := dao.NewSimple(s.be, false)
 		s.daos = append(s.daos, d)
@@ -508,7 +511,12 @@ func (s *rstack) apply(m *model, o op) (res string) {
 		}
 	case opReopen:
 		// Close of a layer closes all the stores below it, the database included.
-		if err := s.ly[len(s.ly)-1].Close(); err != nil {
+		// (a flushed private layer is gone: with no layer left the database itself is closed)
+		var top storage.Store = s.be
+		if len(s.ly) > 0 {
+			top = s.ly[len(s.ly)-1]
+		}
+		if err := top.Close(); err != nil {
 			return "error: Close: " + err.Error()
 		}
 		s.be = s.env.reopened(s.beKind)
